@@ -37,6 +37,9 @@ UNPROVED = ['nlsf2a_nowrap_d16 (the full statement is a comment block in OpusPro
             'real-arithmetic stability: inverse_pred_gain_reflection_bounded bounds the reflection coefficients of the '
             'FIXED-POINT step-down recursion by A_LIMIT = 0.99975; that the exact reflection coefficients of the real-coefficient '
             'filter are below 1 needs an error analysis of silk_INVERSE32_varQ / silk_RSHIFT_ROUND64 that is not done.',
+            'no read of uninitialised sLTP_Q15 / sLTP_Q14 (index-safety bridge): proved is that every index is inside the '
+            'array; that every read index was written before (needs |lag_k - lag_0| <= k*subfr_length, which follows from the '
+            'spread of the pitch contour tables, at most 21 < 40) is not stated as a theorem.',
             '32-bit range of the sums inside silk_NLSF_stabilize (centre frequencies, min/max centres: sums of at most 17 '
             'opus_int16 values, below 2^20) and of the NLSF interpolation are not stated as trace lemmas; their opus_int16 stores '
             'are covered by stabilize_post / nlsf_interp_enc_dec_agree.']
@@ -49,7 +52,14 @@ RULE = ('exhaustive: both NLSF codebooks x all 32 first-stage vectors x residual
         '(via silk_decode_parameters) and raw in-range vectors; silk_LPC_fit / silk_bwexpander_32 / inverse prediction '
         'gain on random filters; gain chains and the quantiser on log-uniform and near-level gains. A case is distinct '
         'by its (operation, outcome kind) class.')
-NOT_COVERED = ['silk_NLSF2A on UNORDERED in-range NLSF vectors of order 16: a32_QA1[k] = -/+Qtmp - Ptmp overflows opus_int32 '
+NOT_COVERED = ['index-safety bridge (OpusModel/SilkSynthIdx*.lean): the index expressions are a hand transcription (file:line cited), '
+               'tied by recorded access extents; the stack arrays A_Q12_tmp / A_Q12 and the constant tables are in the model and '
+               'the theorems but outside the recorder; value-level state (conc_energy, conc_energy_shift, randScale_Q14, prevGain_Q16, '
+               'prev_gain_Q16, CNG_smth_Gain_Q16) is not modelled - the state tie compares lossCnt, prevSignalType, lagPrev, '
+               'first_frame_after_reset, sPLC.{fs_kHz, pitchL_Q8, nb_subfr, subfr_length, last_frame_lost, rand_seed}, '
+               'sCNG.{fs_kHz, rand_seed}; the stereo layer of dec_API.c, the resampler, OSCE / deep PLC builds, the clang '
+               'variant of the sLPC_Q14 allocation and everything the encoder does are not covered',
+               'silk_NLSF2A on UNORDERED in-range NLSF vectors of order 16: a32_QA1[k] = -/+Qtmp - Ptmp overflows opus_int32 '
                '(signed overflow, NLSF2A.c:125-126; theorem nlsf2a_d16_unordered_overflows). Not reachable: decoder and encoder '
                'pass ordered vectors (nlsf_decode_ordered; interpolation of ordered vectors is ordered), so not a violation of C18 '
                'and not patched (coordinator decision). Reproduction: feed the line `silkparams nlsf2a '
